@@ -533,6 +533,35 @@ func runCase(c *kit.Ctx, i int, name string) {
 	_, _, _ = ce.Reconcile("ns1", "c1")
 	k.check("re-sync", claimIn2, xrBefore2, findXR(), w.GetObj(ckey))
 
+	// a third sync after an edit of the claim's labels and annotations ONLY (the spec and the XR
+	// are as the previous sync left them)
+	cmM := &unstructured.Unstructured{Object: w.GetObj(ckey)}
+	ls, an := cmM.GetLabels(), cmM.GetAnnotations()
+	if ls == nil {
+		ls = map[string]string{}
+	}
+	if an == nil {
+		an = map[string]string{}
+	}
+	ls["example.org/edited-later"] = fmt.Sprintf("l%d", i%7)
+	an["example.org/note-edited-later"] = fmt.Sprintf("a%d", i%5)
+	for key := range ls {
+		if !strings.Contains(key, "crossplane.io") && !strings.Contains(key, "kubernetes.io") && key != "example.org/edited-later" {
+			ls[key] += "x" // an existing unreserved label changes its value
+			break
+		}
+	}
+	cmM.SetLabels(ls)
+	cmM.SetAnnotations(an)
+	if err := u.Update(context.Background(), cmM); err != nil {
+		panic(err)
+	}
+	xrBefore3 := findXR()
+	claimIn3 := w.GetObj(ckey)
+	_, _, _ = ce.Reconcile("ns1", "c1")
+	_, _, _ = ce.Reconcile("ns1", "c1")
+	k.check("metadata-only-re-sync", claimIn3, xrBefore3, findXR(), w.GetObj(ckey))
+
 	nestedUser, machinery := 0, 0
 	for f, v := range specOf(t.Claim) {
 		if allMachinery[f] {
